@@ -63,6 +63,11 @@ package ice
 //@   site call getConn#1 assert looks-up-what-was-asked: arg1 == ufrag && arg2 == isIPv6 && arg3 == local
 //@   site call ClearAliveTimer#1 assert claims-only-the-connection-found: ok && recv == conn
 //@   site call createConn#1 assert creates-a-permanent-connection-for-the-user: !ok && arg1 == ufrag && arg2 == isIPv6 && arg3 == local && arg4 == false
+//@   ghostvar createdNow bool = false
+//@   ghostvar foundOpen bool = false
+//@   site call isClosed#1 ghost foundOpen := !result
+//@   site call createConn#1 ghost createdNow := true
+//@   site call newSharedPacketConn#1 assert C15 C13 a-handle-is-handed-out-only-on-an-open-connection: createdNow || foundOpen
 //@   site call newSharedPacketConn#1 assert hands-out-a-handle-on-that-connection: arg0.payload == conn
 //@   ensures closed-mux-hands-out-nothing: old(m.closed) ==> result0 == nil && result1 != nil
 
@@ -84,7 +89,7 @@ package ice
 //@ func (*TCPMuxDefault).createConn$1
 //@   props C13 C15
 //@   opt nosafety
-//@   site call removeConnByUfragAndLocalHost#1 assert the-watcher-removes-only-its-own-connection: arg0 == m && arg1 == ufrag && arg2 == connKey
+//@   site call removeConnByUfragAndLocalHost#1 assert the-watcher-removes-only-its-own-connection: arg0 == m && arg1 == ufrag && arg2 == connKey && arg3 == conn
 
 //@ func (*TCPMuxDefault).RemoveConnByUfrag
 //@   props C15
@@ -129,10 +134,12 @@ package ice
 // Cleanup after a packet connection closed: an emptied per-ufrag table is dropped
 // from the family it belongs to (never from the other one).
 //@ func (*TCPMuxDefault).removeConnByUfragAndLocalHost
-//@   props C15
+//@   props C15 C13
 //@   opt nosafety
 //@   site call closeAndLogError#1 assert closes-only-the-removed-connections: arg1.payload == conn
 //@   site call delete#1 assert removes-exactly-this-local-address: arg0 == conns && arg1 == localIPAddr
+//@   site call delete#1 assert C15 C13 a-newer-connection-under-the-same-key-is-left-alone: conn == self
+//@   site call delete#3 assert C15 C13 a-newer-connection-under-the-same-key-is-left-alone-v6: conn == self
 //@   site call delete#2 assert drops-the-emptied-ipv4-table-from-the-ipv4-family: arg0 == m.connsIPv4 && arg1 == ufrag && len(conns) == 0
 //@   site call delete#3 assert removes-exactly-this-local-address-v6: arg0 == conns && arg1 == localIPAddr
 //@   site call delete#4 assert drops-the-emptied-ipv6-table-from-the-ipv6-family: arg0 == m.connsIPv6 && arg1 == ufrag && len(conns) == 0
